@@ -89,15 +89,17 @@ def classify(v):
     names = list(v['names'].values())
     text = v.get('text', '')
     # a statement whose subject name + copula reads as a different, longer copula (format without separators)
-    if v['kind'] == 'parse-error' or v['kind'] == 'value-changed':
+    if True:
         for n in names:
             for k in copulas:
                 for k2 in copulas:
-                    if k2 != k and len(k2) > len(k) and k2.endswith(k) and n.endswith(k2[:len(k2) - len(k)]) and (n + k) in text.replace(' ', ''):
+                    tx = text if isinstance(text, str) else ''.join(chr(c) for c in text)
+                    if k2 != k and len(k2) > len(k) and k2.endswith(k) and n.endswith(k2[:len(k2) - len(k)]) and (n + k) in tx.replace(' ', ''):
                         return 'name-plus-copula-reads-as-longer-copula'
         for n in names:
             for k in copulas:
-                if any(k.startswith(n[i:]) and len(n[i:]) < len(k) for i in range(len(n))) and text.rstrip().endswith(n):
+                tx = text if isinstance(text, str) else ''.join(chr(c) for c in text)
+                if any(k.startswith(n[i:]) and len(n[i:]) < len(k) for i in range(len(n))) and tx.rstrip().endswith(n):
                     return 'name-ends-input-with-copula-prefix'
     cls = ''.join('d' if ch.isdigit() else 'a' if ch.isalnum() else 'p' for n in names for ch in n)
     return 'other:%s:%s' % (v['shape'], cls)
